@@ -37,8 +37,18 @@ LEVEL_TEXT = ("Lean 4 theorems about the executable models: per solver (Props/C2
               "the decision model against the real null_space/GeneralParameters driven by a scripted solver, by "
               "differential runs of gama-local over the four algorithms on planted deficiencies, and by an exact rational "
               "rank oracle on what gama-local removed / reported.")
-LEVEL_NOTE = ("project_equations (revision, linearisation, singular_coords) is a parameter of the decision model, not "
-              "modelled; per-solver theorems for svd are about singular values, not unknowns (known finding). The "
+LEVEL_NOTE = ("project_equations (revision, linearisation, singular_coords) is a parameter of the decision model "
+              "(instantiated by the model of project_equations in Props/C01/ProjectEquations.lean: C20_world_of_project_equations); "
+              "the world hypotheses WF / RefusalFlags / RefusalFirst and the verdict theorem C20_adjusted_sound are THEOREMS for "
+              "worlds built from the solver models gso, cholesky (Props/C20/World.lean), envelope and svd "
+              "(Props/C20/WorldEnv.lean, WorldGap.lean: second-stage premises from one exact gap hypothesis); per-solver "
+              "theorems for svd are about singular values, not unknowns (known finding F7-svd, negation proved: "
+              "C20_svd_lindep), but count, refusal and verdict clauses hold for svd and no longer assume a factorisation "
+              "certificate (Props/C20/SvdDecompose.lean: for the factors Svd.decompose returns with unambiguous singular "
+              "values; refusal as an iff under the second-stage premise: C02_refusal_svd). Not proved: convergence of the "
+              "svd QR iteration (= decompose returns), IEEE rounding; each solver instance asks that every quantity its run "
+              "tests is exactly 0 or above its tolerance; the envelope's absolute sqrt(eps) pivot tolerance on free networks "
+              "is known finding F22 (C19-envelope-defect-undercount in gama-g3). The "
               "end-to-end statement 'the removed points are exactly the indeterminate ones' is checked by the rank oracle, "
               "not proved.")
 TECHNIQUE = "Lean 4 proof (structural induction over the removal recursion, decreasing measure) + model/implementation correspondence + differential runs"
